@@ -2,6 +2,8 @@ import PyaModel.Spec.D14
 import PyaModel.Spec.Mem
 import PyaModel.Proofs.C14
 import PyaModel.Generated.ClassTable
+import PyaModel.Spec.ValueChildren
+import PyaModel.Generated.ValueChildren
 /-!
 # Props/C14 — the value algebra: uniting, equality, hashing, substitution
 
@@ -439,6 +441,32 @@ theorem substUniteComm_false : ¬ SubstUniteComm := fun h => by
   have := h [(0, .typed C.int)] (.tvar 0) (.typed C.int)
   rw [substCollapse_witness.1, substCollapse_witness.2.1, substCollapse_witness.2.2] at this
   cases this
+
+/-! ## 9. substitution outside the term language: the child positions of the Value classes
+
+`CallableValue`, `TypedDictValue`, `DictIncompleteValue`, type guards, … are outside the Lean term
+language (adding constructors to `Ty` would touch every kernel of the other properties). Their
+substitution clauses are searched on the implementation by the `tv` stream (harness/props/c14x.py) with a
+structural occurrence oracle; what is pinned here is the *coverage* of that stream: the table of child
+positions regenerated from the live tree is exactly the registered one, the harness uses the same
+table, and every planted position has a generator. -/
+
+/-- Every dataclass field of a Value class of the live tree that can hold a value is registered
+(a container field added upstream breaks this obligation). -/
+theorem value_children_registered :
+    valueChildren.all (fun r => registeredChildren.any (fun q => q.1 == r.1 && q.2.1 == r.2)) = true := by
+  decide +kernel
+
+/-- No registered row is stale. -/
+theorem registered_children_live :
+    registeredChildren.all (fun q => valueChildren.contains (q.1, q.2.1)) = true := by decide +kernel
+
+/-- The harness works with exactly the pinned table. -/
+theorem harness_registry_pinned : harnessRegistry = registeredChildren := by decide +kernel
+
+/-- Every child position has a planter in the `tv` stream. -/
+theorem planted_children_have_planters :
+    (childrenWith "planted").all (fun r => harnessPlanters.contains r) = true := by decide +kernel
 
 /-! ## Non-vacuity: every hypothesis set is met by a non-trivial input -/
 
